@@ -12,7 +12,7 @@ RULE = ('every base tree with <= E entries and <= 3 directories plus depth-4 cha
         'directory position x every target {directory beside the link, the link\'s own directory, its parent, the root, the '
         'link itself, a directory outside the root, directories above the root, a file, nothing (dangling), another link, chains link->link->dir and link->link->link->dir whose final directory is reachable in no other way} x '
         '{absolute, relative-to-link-directory} spelling, and every pair of links of the cyclic families (mutual pair, chain, '
-        'ancestor + sibling); x root in {., relative, absolute, cwd one level above the root} x {bfs, dfs} x windows {none, '
+        'ancestor + sibling); x root in {., relative, absolute, cwd one level above the root, a regular-expression root} x {bfs, dfs} x windows {none, '
         'maxdepth 1..3} x symlinks on/off x readdir order {sorted, reversed}; non-trivial = following the link changes the '
         'expected rows')
 MC_NOTE = ('state = (decorated tree, root spelling, mode, window, option, readdir order); the model walks the real directory '
@@ -69,7 +69,7 @@ def subtree(tree, rel):
     return cur
 
 
-TARGETS = ['beside', 'owndir', 'parent', 'root', 'self', 'outside', 'above1', 'above2', 'file', 'dangling', 'chain', 'chain2', 'chain3']
+TARGETS = ['beside', 'owndir', 'parent', 'root', 'self', 'outside', 'above1', 'above2', 'file', 'dangling', 'chain', 'chain2', 'chain3', 'enotdir']
 
 
 def decorate(tree, ldir, target, spelling):
@@ -109,6 +109,9 @@ def decorate(tree, ldir, target, spelling):
     elif target == 'chain':
         here['L2'] = L(up + '../../outside' if spelling == 'rel' else os.path.normpath(os.path.join(ROOT, '../../outside')))
         rel, ab = 'L2', os.path.join(ROOT, ldir, 'L2')
+    elif target == 'enotdir':
+        # the target path runs through a regular file: resolving it fails with ENOTDIR, not ENOENT
+        rel, ab = up + '../../outside/o1/attachment', os.path.normpath(os.path.join(ROOT, '../../outside/o1/attachment'))
     elif target in ('chain2', 'chain3'):
         # link -> link (outside the searched tree) [-> link] -> directory reachable in no other way
         name = 'cl' if target == 'chain2' else 'cl3'
@@ -125,6 +128,10 @@ def pairs(tier):
     yield {'a': D({'l1': L('../b')}), 'b': D({'l2': L('../c')}), 'c': D({'l3': L('../a'), 'f': F(1)})}
     yield {'a': D({'anc': L('..'), 'sib': L('../b')}), 'b': D({'f': F(1), 'back': L('../a')})}
     yield {'l1': L('l2'), 'l2': L('l1'), 'd': D({'f': F(1)})}
+    # the same relative target text in two directories: dangling from one, a directory from the other (and vice versa)
+    yield {'l1': L('../../outside/od'), 'sub': D({'l2': L('../../outside/od'), 'f': F(1)})}
+    yield {'sub': D({'l1': L('../../outside/od')}), 'tub': D({'deep': D({'l2': L('../../outside/od')})}), 'l0': L('../../outside/od')}
+    yield {'a': D({'same': L('x')}), 'b': D({'same': L('x'), 'x': D({'inb': F(1)})}), 'c': D({'same': L('x'), 'x': F(1)})}
     yield {'d': D({'same1': L('../e'), 'same2': L('../e')}), 'e': D({'f': F(1), 'g': D({'h': F(1)})})}
 
 
@@ -143,9 +150,10 @@ def configs(tier, windows_ok):
             out.append({'root': 'abs', 'mode': '', 'sym': True, 'max': w, 'rd': 'sorted'})
         out.append({'root': 'above', 'mode': '', 'sym': True, 'max': None, 'rd': 'sorted'})
         out.append({'root': 'above', 'mode': 'dfs', 'sym': False, 'max': None, 'rd': 'sorted'})
+        out.append({'root': 'rx', 'mode': '', 'sym': True, 'max': None, 'rd': 'sorted'})
         return out
     out = []
-    for r in ('dot', 'rel', 'abs', 'above'):
+    for r in ('dot', 'rel', 'abs', 'above', 'rx'):
         for mode in ('', 'dfs'):
             for sym in (True, False):
                 for w in [None] + ([1, 2, 3] if windows_ok else []):
@@ -236,9 +244,10 @@ def eval_group(env, group, tier):
         for cfg in configs(tier, single_route):
             if only is not None and cfg != only:
                 continue
-            arg, cwd = {'dot': ('.', troot), 'rel': ('real/t', holder), 'abs': (troot, holder), 'above': ('t', os.path.join(holder, 'real'))}[cfg['root']]
+            arg, cwd = {'dot': ('.', troot), 'rel': ('real/t', holder), 'abs': (troot, holder), 'above': ('t', os.path.join(holder, 'real')),
+                        'rx': ('real/[t]', holder)}[cfg['root']]
             q = ['path', 'from', arg] + (['symlinks'] if cfg['sym'] else []) + ([cfg['mode']] if cfg['mode'] else []) + \
-                (['maxdepth', str(cfg['max'])] if cfg['max'] else []) + ['into', 'list']
+                (['maxdepth', str(cfg['max'])] if cfg['max'] else []) + (['bfs', 'rx'] if cfg['root'] == 'rx' else []) + ['into', 'list']
             o = env.run(q, cwd=cwd, preload=True, env={'FSX_READDIR': cfg['rd']}, timeout=10.0)
             exp_rows, _ = model(troot, cfg['sym'], cfg['max'])
             nofollow, _ = model(troot, False, cfg['max'])
